@@ -40,24 +40,63 @@ def proof_token(hexproof):
     return b'sha256:' + hashlib.sha256(b).digest()
 
 
-def rec_term(d):
+class Shared:
+    """proof nodes occur twice in a case (as hex STRINGS in the decoded record, as bytes in the trie.VerifyProof
+    table); each distinct long byte string is emitted once as a Coq definition and referred to by name.  A record
+    string that is exactly "0x" + lower-case hex of such a byte string is written (hex0x_lit name)."""
+
+    def __init__(self, prefix):
+        self.prefix, self.names, self.defs = prefix, {}, []
+
+    def name(self, raw):
+        if len(raw) < 24:
+            return None
+        n = self.names.get(raw)
+        if n is None:
+            n = '%s_%d' % (self.prefix, len(self.names))
+            self.names[raw] = n
+            self.defs.append('Definition %s : bytes := %s.' % (n, vlib.coq_literal_bytes(raw)))
+        return n
+
+    def node(self, hexnode):
+        raw = bytes.fromhex(hexnode)
+        return self.name(raw) or vlib.coq_literal_bytes(raw)
+
+    def string(self, hexstr):
+        """a record string (given as hex of its bytes)"""
+        sb = bytes.fromhex(hexstr)
+        if sb[:2] == b'0x' and len(sb) >= 50 and len(sb) % 2 == 0:
+            body = sb[2:]
+            try:
+                raw = bytes.fromhex(body.decode('ascii'))
+            except (ValueError, UnicodeDecodeError):
+                raw = None
+            if raw is not None and raw.hex().encode() == body and raw in self.names:
+                return '(hex0x_lit %s)' % self.names[raw]
+        return vlib.coq_literal_bytes(sb)
+
+
+def rec_term(d, sh=None):
+    st = sh.string if sh else hb
+
     def sr(s):
         if s is None:
             return 'None'
         return '(Some {| sr_key := %s; sr_value := %s; sr_proof := %s |})' % (
-            hb(s['key']), hb(s['value']), coq_list([hb(x) for x in (s['proof'] or [])]))
+            hb(s['key']), hb(s['value']), coq_list([st(x) for x in (s['proof'] or [])]))
     return ('{| p_address := %s; p_balance := %s; p_code_hash := %s; p_nonce := %s; p_storage_hash := %s; '
             'p_account_proof := %s; p_storage_proof := %s |}' % (
                 hb(d['address']), hb(d['balance']), hb(d['code_hash']), hb(d['nonce']), hb(d['storage_hash']),
-                coq_list([hb(x) for x in (d['account_proof'] or [])]),
+                coq_list([st(x) for x in (d['account_proof'] or [])]),
                 coq_list([sr(s) for s in (d['storage_proof'] or [])])))
 
 
-def case_term(r):
+def case_term(r, sh=None):
     sp = r['spec']
+    nd = sh.node if sh else hb
     store = coq_list(['(%s, %s)' % (hb(e['key']), coq_option(None if e['root'] is None else hb(e['root'])))
                       for e in r['store']])
-    mpt = coq_list(['(%s, %s, %s, %s)' % (hb(e['root']), hb(e['key']), coq_list([hb(n) for n in e['nodes']]),
+    mpt = coq_list(['(%s, %s, %s, %s)' % (hb(e['root']), hb(e['key']), coq_list([nd(n) for n in e['nodes']]),
                                           coq_option(None if e['res'] is None else hb(e['res'])))
                     for e in r['mpt']])
     kec = coq_list(['(%s, %s)' % (hb(a), hb(b)) for a, b in r['keccak']])
@@ -71,7 +110,7 @@ def case_term(r):
                 hb(sp['contract']), store,
                 coq_option(None if sp['height'] is None else height_term(sp['height'])),
                 coq_option(proof), hb(sp['src']), hb(sp['dst']), coq_N(sp['seq']), hb(sp['commitment']),
-                coq_option(None if r['decoded'] is None else rec_term(r['decoded'])),
+                coq_option(None if r['decoded'] is None else rec_term(r['decoded'], sh)),
                 kec, mpt, coq_bool(r['copies_agree']), r['eth_class'], r['bsc_class'], coq_bool(sp['honest']),
                 coq_option(None if gt.get('slot_word') is None else hb(gt['slot_word']))))
 
@@ -108,7 +147,9 @@ def evaluate(workdir, results, tag='cases'):
 
     def one(ix):
         i, sh = ix
-        defs = 'Definition cases : list ecase := %s.\n' % coq_list([case_term(r) for r in sh])
+        shd = Shared('n%d' % i)
+        terms = [case_term(r, shd) for r in sh]  # mpt tables are rendered before the records: see case_term
+        defs = '\n'.join(shd.defs) + '\nDefinition cases : list ecase := %s.\n' % coq_list(terms)
         res = coq_eval(workdir, '%s_%d.v' % (tag, i), defs,
                        [('M', 'mismatches cases'), ('F', 'monitor_failures cases'), ('C', 'model_classes cases')])
         m = vlib.parse_nat_tuples(res.get('M'), 3)
@@ -217,7 +258,7 @@ def check(run):
         run.violation(dict(kind='harness-build-failed', log=out[-3000:],
                            explanation='the correspondence harness no longer builds against the tree'), no_input=True)
         return run.finish()
-    n = run.budget(700, 12000)
+    n = run.budget(500, 10000)
     outp = os.path.join(run.work, 'out.jsonl')
     rc, o = vlib.run_harness('c08', ['-seed', run.seed, '-n', n, '-out', outp])
     if rc != 0:
